@@ -6,6 +6,7 @@ import Cirbo.Model.Tseytin
 import Cirbo.Model.Codec
 import Cirbo.Model.Func
 import Cirbo.Model.Bench
+import Driver.Steps
 /-! `cirbo_model`: one JSON request per input line, one JSON response per output line. -/
 open Lean Cirbo Driver
 
@@ -194,6 +195,10 @@ def handle (j : Json) : Except String Json := do
   | "parse_bench" => do
     let t ← (← j.getObjVal? "text").getStr?
     pure (ofExcept jCircuit (parseBench t.toList))
+  | "mutate" => do
+    let c ← getCircuit j
+    let steps ← (← j.getObjVal? "steps").getArr?
+    pure (ok (Json.arr (← runSteps c steps.toList).toArray))
   | "optable_issues" => pure (ok (jStrs opTableIssues))
   | "check_wf" => do
     let c ← getCircuit j
